@@ -265,6 +265,65 @@ def run(seed=0, rounds=400):
     for a_ in kinds:
         for b_ in kinds:
             check('result-kind-is-join', numpy.result_type(a_, b_).kind == numpy.dtype(kinds[max(kinds.index(a_), kinds.index(b_))]).kind, a_.__name__, b_.__name__)
+        # -- C09 index partition (contracts/samplepart.py)
+        lo, hi = int(rng.randint(-3, 6)), int(rng.randint(-3, 6))
+        ar = numpy.arange(lo, hi)
+        check('arange(a,b)', len(ar) == max(hi - lo, 0) and all(ar[i] == lo + i for i in range(len(ar))), lo, hi)
+        c1, c2, stride = rng.randint(0, 4), rng.randint(0, 4), int(rng.randint(0, 6))
+        xa, ya = rng.randint(-5, 6, size=c1), rng.randint(-5, 6, size=c2)
+        outer = (xa[:, None] * stride + ya[None, :])
+        rav = outer.ravel()
+        check('column*n + row broadcasts to the outer grid; ravel is C order', outer.shape == (c1, c2) and len(rav) == c1 * c2 and all(rav[q] == xa[q // c2] * stride + ya[q % c2] for q in range(c1 * c2)), xa, ya, stride)
+        if n:
+            ind = rng.randint(-n, n, size=rng.randint(0, 5))
+            tk = numpy.take(x, ind)
+            check('take(a, ind)[k] = a[ind[k]] (negative entries wrap)', len(tk) == len(ind) and all(tk[k] == x[ind[k] + n if ind[k] < 0 else ind[k]] for k in range(len(ind))) and (x[ind] == tk).all(), x, ind)
+            for badi in (n, -n - 1):
+                try:
+                    numpy.take(x, numpy.array([badi]))
+                    check('take raises IndexError out of range', False, x, badi)
+                except IndexError:
+                    pass
+        cnts = rng.randint(0, 4, size=n).tolist()
+        cs = numpy.cumsum([0] + cnts)
+        check('cumsum([0]+counts)', len(cs) == n + 1 and cs[0] == 0 and all(cs[k + 1] == cs[k] + cnts[k] for k in range(n)), cnts)
+        if n:
+            e = rng.randint(0, n)
+            pair = cs[e:e + 2]
+            perm2 = rng.permutation(int(cs[-1]))
+            check('slice(*offsets[e:e+2]) selects the block', len(pair) == 2 and perm2[slice(*pair)].tolist() == [perm2[q] for q in range(cs[e], cs[e + 1])] and numpy.arange(*pair).tolist() == list(range(cs[e], cs[e + 1])), cnts, e)
+    # -- C09 evaluable twins (contracts/sampleeval.py): the denotation table of the IR constructors against the real nodes
+    try:
+        from nutils import evaluable as ev
+    except Exception:
+        ev = None
+    if ev is not None:
+        def run_ir(node, **args):
+            return numpy.asarray(ev.compile(node)(args))
+        for _ in range(12):
+            n, m = int(rng.randint(0, 5)), int(rng.randint(1, 4))
+            arr = rng.randint(-5, 6, size=n + 1)
+            idx = rng.randint(0, n + 1, size=(m,))
+            k = ev.Argument('k', (), int)
+            kv = int(rng.randint(0, n + 1))
+            check('IR Range', run_ir(ev.Range(ev.constant(n))).tolist() == list(range(n)), n)
+            check('IR Take(Constant(a), i)', run_ir(ev.Take(ev.constant(arr), ev.constant(idx))).tolist() == arr[idx].tolist(), arr, idx)
+            check('IR get(a, 0, k)', int(run_ir(ev.get(ev.constant(arr), 0, ev.InRange(k, ev.constant(n + 1))), k=kv)) == int(arr[kv]), arr, kv)
+            d = int(rng.randint(1, 5))
+            q, r_ = ev.divmod(ev.InRange(k, ev.constant(n + 1)), d)
+            check('IR divmod', (int(run_ir(q, k=kv)), int(run_ir(r_, k=kv))) == divmod(kv, d), kv, d)
+            v = ev.constant(idx)
+            ap = run_ir(ev.appendaxes(v, (ev.constant(n + 1),)))
+            pp = run_ir(ev.prependaxes(v, (ev.constant(n + 1),)))
+            check('IR appendaxes/prependaxes', ap.shape == (m, n + 1) and pp.shape == (n + 1, m) and all((ap[:, c] == idx).all() for c in range(n + 1)) and all((pp[c] == idx).all() for c in range(n + 1)), idx, n)
+            check('IR scalar + vector, vector * int', run_ir(ev.Range(ev.constant(m)) + ev.InRange(k, ev.constant(n + 1)), k=kv).tolist() == [c + kv for c in range(m)] and run_ir(v * 3).tolist() == (idx * 3).tolist(), m, kv)
+            check('IR Zeros', run_ir(ev.Zeros((ev.constant(0), ev.constant(0)), dtype=int)).size == 0)
+            sizes = rng.randint(0, 4, size=n)
+            check('IR _SizesToOffsets', run_ir(ev._SizesToOffsets(ev.constant(sizes))).tolist() == numpy.cumsum([0] + sizes.tolist()).tolist(), sizes)
+            if n:
+                li = ev.loop_index('_i', n)
+                lc = ev.loop_concatenate(ev.InsertAxis(ev.Take(ev.constant(sizes), li), ev.constant(1)), li)
+                check('IR loop_concatenate of one-element chunks', run_ir(lc).tolist() == sizes.tolist(), sizes)
     print('AXIOMS ' + json.dumps(dict(rounds=rounds, failures=fails[:5])))
     ok_sets = run_sets(seed)
     ok_ev = evaluable_nodes(seed)
